@@ -61,7 +61,8 @@ _p('C18', ['H1', 'H3', 'E10', 'H4', 'F2', 'MEMO', 'SGN0', 'SFMT'],
             "native-endian aliases point at the le/be dtype in the matching sys.byteorder branch (both branches, "
             "including the one this host never executes)",
             "Array accepts array.array input only when kind and width match: extend and equals both consult typecode "
-            "and itemsize of the foreign array"],
+            "and itemsize of the foreign array",
+            'every format handed to struct.pack/unpack/calcsize carries an explicit byte-order prefix, so code sizes are the documented standard ones on every platform'],
    declined=["byte-for-byte equality with struct.pack for every value; byteswap twice = identity (run-time values)"],
    explanation="Static table agreement: the character classes of the four struct regexes (via re._parser), the keys "
                "of REPLACEMENTS_BE/LE/NE and PACK_CODE_SIZE are compared with each other and with "
@@ -79,7 +80,8 @@ _p('C17', ['H6', 'DELEG', 'L', 'A7', 'E5', 'OPT', 'J1', 'WIN', 'PAD'],
             "tobytes honours the logical length of a file-backed store",
             "read-back routes (bytes, bitarray, file, BytesIO with offset/length) copy the selected window, agree on "
             "bounds checks and use absolute positions; the bounds test of each windowed route equals, as a linear form, the end of "
-            "the window it slices out, and the BytesIO byte pre-slice covers the bit window"],
+            "the window it slices out, and the BytesIO byte pre-slice covers the bit window",
+            'serialisation reads bits through tobytes()/tofile(), which zero the pad bits; never through a raw view of the bitarray buffer'],
    declined=["zero padding and losslessness as values for every content/window/size (inside bitarray.tobytes)"],
    explanation="Constant folding of the chunk-size expression that reaches Bits.cut in Bits.tofile; delegation and guard "
                "dominance checks; ingest feature matrix.")
@@ -189,7 +191,8 @@ _p('C08', ['J1', 'J2', 'L', 'A7', 'A8', 'A6', 'A3', 'A1', 'A11', 'ITER1', 'MEMO'
             "a file-backed bitstring whose length stops short of the file behaves as the in-memory bitstring of those "
             "bits: the logical length never outlives construction (or every raw reader consults it)",
             "every construction route ends in a store holding copies of the selected window (ingress copies; "
-            "frombuffer only on a read-only mmap)"],
+            "frombuffer only on a read-only mmap)",
+            'no operation reads a store through the buffer protocol (memoryview/bytes of the bitarray): the unspecified pad bits of the last byte cannot leak into any result'],
    declined=["that every public operation returns equal results on equal content (needs functional correctness of each "
              "operation; run-time)"],
    explanation="Field read-confinement census, representation-invariant check of BitStore.modified_length (abstract "
@@ -215,7 +218,8 @@ _p('C13', ['HASH', 'J1', 'J2', 'D3', 'L', 'G3', 'EQ1', 'A7', 'A1', 'PAD'],
             "== / != / hash have one implementation each for all classes and reach no read of _pos or _filename, so they "
             "are independent of stream position and construction route; logical length honoured",
             "comparison with a non-promotable type is False, not an error; != is the negation of ==",
-            "== is decided on the stores (never on a zero-padded serialisation without the length); raw buffer reads are confined to BitStore; foreign bitarrays are re-built big-endian; whole-value operations incl. __hash__ are mode independent"],
+            "== is decided on the stores (never on a zero-padded serialisation without the length); raw buffer reads are confined to BitStore; foreign bitarrays are re-built big-endian; whole-value operations incl. __hash__ are mode independent",
+            'equality and hash never read the raw buffer of a bitarray (whose pad bits are unspecified): content reaches them through the bitarray API only'],
    declined=["symmetry/transitivity as value-level laws, the 2000-bit sampling threshold arithmetic, equality with "
              "promotable operands (run-time)"],
    explanation="MRO resolution of __hash__/__eq__/__ne__ per class, field-dependence reachability, handler check of the "
@@ -242,7 +246,8 @@ _p('C03', ['B2', 'WB', 'N1', 'B1', 'E2', 'E11', 'OPT', 'G5', 'A3', 'F2', 'RNG', 
             "ranged in-place writes are bounded by the validated end",
             "helpers' position asserts are established by their public callers' guards",
             "start/end are validated (or forwarded to the validating function) before any return; replace's count is not findall's count",
-            "positions given as a range are not reinterpreted as slice bounds (negative and out-of-range bounds mean different things)"],
+            "positions given as a range are not reinterpreted as slice bounds (negative and out-of-range bounds mean different things)",
+            "byteswap's code sizes are the standard struct sizes: every format handed to struct.calcsize/pack/unpack carries an explicit byte-order prefix (no native sizes or alignment)"],
    declined=["equality of the resulting sequence with the documented operation, return values, length preservation in "
              "general (run-time)"],
    explanation="Path walk of every effectful public mutator (effects from the store-effect summaries), bound derivation "
@@ -259,7 +264,8 @@ _p('C14', ['I', 'IDX', 'TY1', 'XDT', 'B3', 'B2', 'N2a', 'A9', 'N4', 'MEMO', 'SGN
             "copies and slices of an Array own their data",
             "raw item data crosses from another Array / array.array into self.data (extend, equals, any splice) only under a dtype "
             "test covering name, width and scale, so the range check of _create_element is never bypassed and equals() compares items",
-            "every method that turns an item index into a bit offset first normalises a negative index by the item count (sibling agreement), items are never addressed from the end of the buffer; numeric-only calls are not applied to non-numeric element values"],
+            "every method that turns an item index into a bit offset first normalises a negative index by the item count (sibling agreement), items are never addressed from the end of the buffer; numeric-only calls are not applied to non-numeric element values",
+            'Array methods address the data from its end only by the trailing-bit count or after refusing trailing bits (the last item is not at the end of the data when trailing bits exist)'],
    declined=["agreement of every list operation and operator result with the Python list model; promotion rules as "
              "values (run-time)"],
    explanation="Dimension (unit) analysis over array_.py, atomicity path rule for in-place helpers, guard check on the "
@@ -372,21 +378,21 @@ TECHNIQUE = {
     'C12': 'switch-table comparison; reachability from whole-value operations to position-taking slots; variant-reference census; single-mirror check of the store-level lsb0 variants',
     'C15': 'who-may-call + guard dominance at the Dtype choke point; sibling agreement of setters and ingest routes; bounds tests vs window ends as linear forms; validate-before-mutate',
     'C19': 'escape-literal census with branch placement; Colour construction sites; pp table/division obligations',
-    'C03': 'path walk of mutators for raise-after-effect; bound derivation of write loops; guard facts for helper asserts; sibling guard agreement of re-implemented mutators; operand-read-after-mutation check',
-    'C14': 'three-sorted dimension analysis (bits/units/items) of array_.py; atomicity path rule; dtype-writer guard; dtype-agreement (name, width, scale) for raw data transfer; memo coherence',
+    'C03': 'path walk of mutators for raise-after-effect; bound derivation of write loops; guard facts for helper asserts; sibling guard agreement of re-implemented mutators; operand-read-after-mutation check; struct-format prefix census',
+    'C14': 'three-sorted dimension analysis (bits/units/items) of array_.py; atomicity path rule; dtype-writer guard; dtype-agreement (name, width, scale) for raw data transfer; memo coherence; end-relative addressing of the data vs trailing bits',
     'C20': 'member resolution, raise/assert/division censuses with dominating-guard facts, symtable names, global-write census',
     'C01': 'result-class provenance typing per concrete class; sibling guard agreement; field-read reachability',
-    'C06': 'typestate of _pos: classification of all writes, rollback path walk, effect/override coverage, post-condition table',
+    'C06': 'typestate of _pos: classification of all writes, rollback path walk, effect/override coverage, post-condition table; mutation census of memoised parse results (also through parameters)',
     'C07': 'sibling guard agreement; forward-or-validate dataflow of start/end; taint of raw bytealigned to search sinks (followed through the receiving parameter); inward byte rounding of byte-level searches',
-    'C08': 'field read-confinement census; representation invariant of BitStore.modified_length; ingress-copy rules',
+    'C08': 'field read-confinement census; representation invariant of BitStore.modified_length; ingress-copy rules; raw-buffer-view census (pad bits)',
     'C10': 'exception-translation chain and guard dominance over exp-Golomb setters/getters/decoders/reader closures',
-    'C13': 'MRO resolution of __hash__/__eq__; field-dependence reachability; handler check',
+    'C13': 'MRO resolution of __hash__/__eq__; field-dependence reachability; handler check; raw-buffer-view census (pad bits)',
     'C16': 'effect summaries of operators; provenance of mutated temporaries; guard agreement; result-class typing',
     'C04': 'ownership/provenance analysis of BitStore installs with object-kind dataflow over the resolved call graph; effect summaries',
     'C11': 'exhaustive table validation against an exact format model (constant folding of luts.py literals); partial evaluation of format constructors',
     'C09': 'call-graph reachability from lru_cache functions to option reads; global-write census; switch-table comparison',
-    'C17': 'constant folding of the tofile chunk size; delegation and guard-dominance checks; ingest feature matrix with window bounds as linear forms',
-    'C18': 'regex character classes (re._parser) vs dict-literal tables vs struct.calcsize; branch interpretation',
+    'C17': 'constant folding of the tofile chunk size; delegation and guard-dominance checks; ingest feature matrix with window bounds as linear forms; raw-buffer-view census (pad bits)',
+    'C18': 'regex character classes (re._parser) vs dict-literal tables vs struct.calcsize; branch interpretation; struct-format prefix census',
 }
 
 NOT_APPLICABLE = {}
